@@ -71,7 +71,7 @@ PROPS = {
         technique="Lean 4 proof (induction over the plan) + fault-injection correspondence on the real archive file",
     ),
     "C04": dict(
-        modules=["Copia.Props.C04", "Copia.Props.C04b"], namespaces=["Copia.C04"], runner="bb", bb_module="bb_oneway",
+        modules=["Copia.Props.C04", "Copia.Props.C04b", "Copia.Props.C04c"], namespaces=["Copia.C04"], runner="bb", bb_module="bb_oneway",
         assumptions=_OW_ASSUME, trusted_base=_OW_TB + ["bash's ANSI-C quoting ($'…') as modelled by Quote.ansiC: named escapes decoded, unknown escapes kept, numeric/control escapes outside the model (never produced by the escaping chain — proved); cross-checked against the installed bash on every run"],
         level_text="Kernel-checked theorems for ALL trees/flags over the run model: destination after a run = (deleted if in delete; source entry with the source's whole-second mtime if in transfer; untouched otherwise), "
                    "nothing outside the plan is touched — also when ANY subset of the transfers and deletes fails (`partial_failure_stays_in_plan`: the non-zero-exit clause) —, an empty source without --delete is a no-op, and ORDER INDEPENDENCE: any completion order of the parallel transfers/deletes gives the same destination. "
@@ -113,7 +113,7 @@ PROPS = {
         technique="Lean 4 proof (invariant over every prefix of the step list) + strace trace conformance + exhaustive kill-point injection",
     ),
     "C09": dict(
-        modules=["Copia.Props.C09", "Copia.Props.C09b", "Copia.Props.C09c"], namespaces=["Copia.C09"], runner="bb", bb_module="bb_crash9", timeout=3000,
+        modules=["Copia.Props.C09", "Copia.Props.C09b", "Copia.Props.C09c", "Copia.Props.C09d"], namespaces=["Copia.C09"], runner="bb", bb_module="bb_crash9", timeout=3000,
         assumptions=_OW_ASSUME + ["'killed at any instant' = before any libc call of any copia thread (strace injection, per-thread counters); kills inside one write are covered by the staging file being opaque until renamed",
                                   "for push the remote command runs to completion on whatever part of the stream arrived (the property's setting)"],
         trusted_base=_OW_TB + ["strace (signal injection, -b execve)"],
@@ -127,7 +127,7 @@ PROPS = {
     "C03": dict(
         modules=["Copia.Props.C03", "Copia.Props.C03b", "Copia.Props.C03c"], namespaces=["Copia.C03"], runner="bb", bb_module="bb_hubconc",
         assumptions=_HUB_ASSUME + ["flock(2) mutual exclusion and release on process death, rename(2) atomic replace, O_TRUNC keeping the inode are trusted kernel semantics",
-                                   "the interleaved transition system contains Put and Delete (`refinement`); Get is not a step kind — `C10.fetch_reads_one_complete_version` shows a published inode is never written again, so a Get is an atomic read at its open; List is not claimed atomic",
+                                   "the interleaved transition system contains Put and Delete (`refinement`); Get runs beside them as its own call sequence (`Model/HubGet`: open, length, hashing pass, header, streaming pass, any writer steps in between) — `C10.get_reply_is_one_version`: the announced hash and length are those of exactly the bytes streamed, one complete verified version the path held after the request began; List is not claimed atomic",
                                    "staging names are per process (WF.tmp_inj) — true of the repaired code (D6), false of the pinned code"],
         trusted_base=_HUB_TB + ["tools/gate/gate.c (LD_PRELOAD interposer on open/open64/write/rename/unlink/flock/close) and tools/bb_gate.py (controller): decide the schedule, do not change what a call does"],
         level_text="Kernel-checked forward simulation: from every reachable state of N interleaved server processes (any schedule, any kills) each step is a stutter or exactly one atomic CAS-put or CAS-delete of the stepping process's request "
@@ -139,7 +139,7 @@ PROPS = {
         technique="Lean 4 proof (inductive invariants + refinement to an atomic CAS map) + schedule-controlled linearizability check against the model",
     ),
     "C10": dict(
-        modules=["Copia.Props.C10"], namespaces=["Copia.C10"], runner="bb", bb_module="bb_hubconc",
+        modules=["Copia.Props.C10", "Copia.Props.C10b"], namespaces=["Copia.C10"], runner="bb", bb_module="bb_hubconc",
         assumptions=_HUB_ASSUME + ["kernel semantics as for C03; 'every instant' = after every scheduling step of the client-paced schedule"],
         trusted_base=_HUB_TB,
         level_text="Kernel-checked inductive invariant over the interleaved system incl. kill transitions: in EVERY reachable state every client-visible path holds initial content or the complete bytes of one Put whose streamed hash equalled its declared hash; "
@@ -222,7 +222,7 @@ PROPS = {
         technique="Lean 4 proof (soundness/completeness of the backtracking matcher by induction on fuel with a measure; list lemmas for the planner) + exhaustive differential correspondence",
     ),
     "C15": dict(
-        modules=["Copia.Props.C15", "Copia.Props.C15b", "Copia.Props.C04"], namespaces=["Copia.C15", "Copia.C04.dry_run"], runner=["rust", "bb"], bb_module="bb_oneway",
+        modules=["Copia.Props.C15", "Copia.Props.C15b", "Copia.Props.C15c", "Copia.Props.C04"], namespaces=["Copia.C15", "Copia.C04.dry_run"], runner=["rust", "bb"], bb_module="bb_oneway",
         assumptions=COMMON_ASSUME + [
             "names are valid UTF-8 (`to_string_lossy` is the identity)",
             "dry-run clause: decided by the black-box correspondence on the real CLI (see DESIGN.md §5 C15); the theorems here cover exclusion semantics, protection and opt-in deletes",
